@@ -464,7 +464,8 @@ func ParseWithIncarnationID(value, incarnationID string) (*Address, error) {
 //   - Only the "goakt" scheme is accepted (case-sensitive).
 //   - Port must be a base-10 integer.
 //   - Path may contain at most one '/' (to separate <parent>/<name>).
-//   - Raw IPv6 literals are not supported by this parser (use a hostname).
+//   - IPv6 hosts appear raw and un-bracketed, exactly as String() renders them
+//     (e.g. "goakt://sys@::1:9000/name"); the port is what follows the last colon.
 //   - No semantic validation is performed. The canonical string carries no
 //     incarnation identifier, so the result has an empty IncarnationID and does
 //     not pass Validate; use ParseWithIncarnationID to restore a validatable
@@ -515,10 +516,14 @@ func Parse(addr string) (*Address, error) {
 		return nil, errors.New("address format is invalid")
 	}
 
-	host, portStr, ok := strings.Cut(hostPort, ":")
-	if !ok || strings.Contains(portStr, ":") {
+	// the port follows the LAST colon: String() embeds IPv6 hosts raw and
+	// un-bracketed (e.g. "::1:9000"), so cutting at the first colon would
+	// reject every address whose host is an IPv6 literal
+	sep := strings.LastIndex(hostPort, ":")
+	if sep < 0 {
 		return nil, errors.New("address format is invalid")
 	}
+	host, portStr := hostPort[:sep], hostPort[sep+1:]
 
 	parsedPort, err := strconvx.ParseInt32(portStr)
 	if err != nil {
